@@ -1,5 +1,6 @@
 import HdVerif.Model.Json
 import HdVerif.Model.SREvidence
+import HdVerif.Model.SRDocument
 open Lean HdVerif HdVerif.Drv HdVerif.SREvidence
 
 def optStr (j : Json) (k : String) : Except String (Option String) :=
@@ -30,6 +31,16 @@ partial def parseItem (j : Json) : Except String Item := do
   let ch ← (← getArr j "children").toList.mapM parseItem
   pure (.mk (← getNat j "id") (← getStr j "vt") (← getStr j "name") (← optStr j "rel") (← optRef j "ref")
     (← getBool j "has_seq") ch)
+
+def optStrList (j : Json) (k : String) : Except String (Option (List String)) :=
+  match j.getObjVal? k with
+  | .error _ => pure none
+  | .ok .null => pure none
+  | .ok v => do let a ← v.getArr?; some <$> a.toList.mapM (·.getStr?)
+
+def optStrToJson : Option String → Json
+  | none => Json.null
+  | some s => Json.str s
 
 def parseEvd (j : Json) : Except String Evd := do
   pure ⟨← getStr j "study", ← getStr j "series", ← getStr j "inst", ← getStr j "cls"⟩
@@ -117,6 +128,39 @@ def handlers : List (String × Handler) := [
       ("get_evidence_series", Json.arr ((getEvidenceSeries d false).map (fun k => Json.arr #[Json.str k.1, Json.str k.2])).toArray),
       ("verification", Json.str (if d.verifiedFlag then "VERIFIED" else "UNVERIFIED")),
       ("content_ids", natsToJson ((subtree d.content).map Item.id))]) (buildSR a))),
+  ("constructSR", fun j => do
+    let tree ← parseItem (← j.getObjVal? "tree")
+    let prev ← match j.getObjVal? "previous" with
+      | .error _ => pure none
+      | .ok .null => pure none
+      | .ok _ => some <$> parseEvdList j "previous"
+    let cls ← parseClass (← getStr j "cls")
+    let evidence ← parseEvdList j "evidence"
+    let nRoots ← getNat j "n_roots"
+    let record ← getBool j "record"
+    let verified ← getBool j "verified"
+    let oj ← j.getObjVal? "options"
+    let o : SREvidence.Options := {
+      isComplete := ← getBool oj "is_complete", isFinal := ← getBool oj "is_final",
+      observer := ← optStr oj "observer", organization := ← optStr oj "organization",
+      institution := ← optStr oj "institution", department := ← optStr oj "department",
+      procedureCodes := ← optStrList oj "procedure_codes", requested := ← optStrList oj "requested",
+      transferSyntax := ← getStr oj "transfer_syntax" }
+    -- hasObserver / hasOrganization of the core arguments are overridden by `Options.core`
+    let a : DocArgs := DocArgs.mk cls evidence nRoots tree record verified false false prev
+    pure (exceptToJson (fun (D : DocDs) => let d := D.doc; Json.mkObj [
+      ("current", groupsToJson d.current), ("other", groupsToJson d.other),
+      ("has_current", Json.bool (!d.current.isEmpty)), ("has_other", Json.bool (!d.other.isEmpty)),
+      ("predecessors", match d.predecessors with | none => Json.null | some g => groupsToJson g),
+      ("get_evidence", rowsToJson (getEvidence d false)),
+      ("get_evidence_current", rowsToJson (getEvidence d true)),
+      ("get_evidence_series", Json.arr ((getEvidenceSeries d false).map (fun k => Json.arr #[Json.str k.1, Json.str k.2])).toArray),
+      ("verification", Json.str D.verification), ("completion", Json.str D.completion), ("preliminary", Json.str D.preliminary),
+      ("observers", Json.arr (D.observers.map (fun x => Json.arr #[Json.str x.name, Json.str x.organization])).toArray),
+      ("institution", optStrToJson D.institution), ("department", optStrToJson D.department),
+      ("procedure_codes", Json.arr (D.procedureCodes.map Json.str).toArray),
+      ("requested", match D.requested with | none => Json.null | some l => Json.arr (l.map Json.str).toArray),
+      ("content_ids", natsToJson ((subtree d.content).map Item.id))]) (constructSR o a))),
   ("parseRoot", fun j => do
     let present ← (← getArr j "present").toList.mapM (·.getStr?)
     pure (exceptToJson (fun (l : List String) => Json.arr (l.map Json.str).toArray) (parseRoot (writeRoot present)))),
